@@ -1336,3 +1336,20 @@ Proof.
   - apply (x_rng_out _ X).
   - now apply links_exact_derived.
 Qed.
+
+(* Gate.ShortCircuit moves EVERY consumer slot of the bypassed wire, in
+   particular both inputs of a consumer op(w, w): such a gate is listed twice
+   in w's output gates (Allocator.BinaryGate calls AddOutput for a and for b)
+   and ForEachOutput calls Gate.ReplaceInput once per entry (A first, then B). *)
+Theorem short_circuit_moves_every_slot rank G g o :
+  SI rank G -> In g (gorder G) -> In o (inputs_of (gn G g)) ->
+  wout (gw G (nO (gn G g))) = false ->
+  forall c, In c (gorder G) -> lslots (short_circuit G g o) c (nO (gn G g)) = 0.
+Proof.
+  intros [B S] Hg Ho Hf c Hc. unfold short_circuit. rewrite Hf.
+  destruct (sc_fold rank g (nO (gn G g)) o (wouts (gw G (nO (gn G g)))) G (conj B S) Hg eq_refl Ho)
+    as (_ & _ & _ & _ & Z').
+  - intros c' Hc'. now apply (bk_lists _ B).
+  - intros c' Hc'. eapply (st_entries _ _ S); eauto.
+  - rewrite <- (Z' c Hc). apply lslots_ext. reflexivity.
+Qed.
